@@ -13,6 +13,8 @@ CHECKS = {
  "C04": "sign_packet_with_crc_key is executed on every hex text of 0..24 (quick) / 0..160 (thorough) bytes in both letter cases against a bit-precise CRC-16 reference; free text of 1..6 characters that is not valid hex must raise.",
  "C05": "_parse_device_from_datagram is executed with every byte of the datagram symbolic under the well-formedness predicate; each delivered field is compared with an independent reference decoder, per device type.",
  "C06": "The datagram is 2 free bytes plus a tail of symbolic length (0..65505): one query per path covers every length and content; the three accepted lengths are re-run with all bytes free for the unknown-model clause.",
+ "C08": "get_state / get_shutter_state / get_breeze_state are executed against a reply whose parsed prefix is fully symbolic plus a tail of symbolic length; every field of the returned object is compared with the reference decoder.",
+ "C09": "Every operation is executed with replies of every length 0..101 (all bytes free) and with a symbolic-length tail at each step; the set of outcomes (returned class / exception class / frames written / success flag) is computed over all feasible paths.",
  "C12": "Weekday encoders/decoder executed on a symbolic single day, a set with 7 free membership bits, lists/tuples of symbolic days and a symbolic mask; bit-exactness, rejection and the round trip are refuted per path.",
  "C14": "calc_duration executed on symbolic digits: all 1440 x 1440 pairs per digit shape in one run.",
  "C19": "Device type is a symbolic choice over the enum; constructors of the four classes and both port tables are checked against the statement's own table (finite space, covered completely).",
